@@ -172,6 +172,11 @@ func c17Run(c *harness.Check, cs respCase) string {
 					failure = fmt.Sprintf("the page's fault did not fail the render and the body carries error details / a path: %q", clip(body, 400))
 					return
 				}
+				if strings.Contains(cs.Note, "bad-data") {
+					// data of an unsupported kind (or the reserved key) fails every render: Response has nothing to show
+					failure = fmt.Sprintf("the data cannot be bound, yet String renders and Response wrote %q and returned %v", clip(body, 200), rerr)
+					return
+				}
 				failure = "harness: the page was built to fail but renders"
 				return
 			}
@@ -356,10 +361,14 @@ func TestC17_Configurations(t *testing.T) {
 				}
 			}
 		}
-		if !fails && rapid.IntRange(0, 3).Draw(rt, "badData") == 0 {
+		if !fails && rapid.IntRange(0, 2).Draw(rt, "badData") == 0 {
 			// the page is sound, the data is not: a value of an unsupported kind (at the top or nested)
 			// or the reserved key; such failures carry no file path
-			bad := rapid.SampledFrom([]*spec.Value{spec.Unsupported(spec.TChan), spec.Unsupported(spec.TFunc), spec.Slice(spec.T(spec.TAny), spec.Any(spec.Unsupported(spec.TComplex))), spec.Unsupported(spec.TIntMap)}).Draw(rt, "badValue")
+			bad := rapid.SampledFrom([]*spec.Value{spec.Unsupported(spec.TChan), spec.Unsupported(spec.TFunc), spec.Slice(spec.T(spec.TAny), spec.Any(spec.Unsupported(spec.TComplex))), spec.Unsupported(spec.TIntMap),
+				spec.Slice(spec.T(spec.TAny), spec.Any(spec.String("go")), spec.Any(spec.Unsupported(spec.TChan))), spec.Slice(spec.T(spec.TChan), spec.Unsupported(spec.TChan)),
+				spec.Slice(spec.T(spec.TAny), spec.Any(spec.Slice(spec.T(spec.TAny), spec.Any(spec.IntOf(spec.TInt, 3)), spec.Any(spec.Unsupported(spec.TFunc))))),
+				spec.Struct([]string{"Items"}, []*spec.Value{spec.Slice(spec.T(spec.TAny), spec.Any(spec.Unsupported(spec.TBoolMap)))}),
+				spec.Map(spec.T(spec.TAny), []string{"k"}, []*spec.Value{spec.Any(spec.Slice(spec.T(spec.TAny), spec.Any(spec.Unsupported(spec.TArray))))})}).Draw(rt, "badValue")
 			key := rapid.SampledFrom([]string{"zbad", "loop", "aaa"}).Draw(rt, "badKey")
 			if key == "loop" {
 				bad = spec.IntOf(spec.TInt, 1)
